@@ -625,12 +625,35 @@ var Checks = map[string]func(tier string) int{}
 var Replayers = map[string]func(tier string, v Violation) int{}
 
 func Replay(id, tier string, v Violation) int {
+	// a check may combine engines: find the engine that knows the configuration the violation names
+	if _, ok := v.Extra["schedule"]; ok {
+		for sid := range SchedChecks {
+			if strings.HasPrefix(sid, id) {
+				for _, sc := range getScenarios(sid, tier) {
+					if sc.Name == v.Conf {
+						return ReplaySched(sid, tier, v)
+					}
+				}
+			}
+		}
+	}
+	if _, ok := v.Extra["crash_before_call"]; ok {
+		if _, ok := CrashChecks[id]; ok {
+			return ReplayCrash(id, tier, v)
+		}
+	}
+	for sid := range SeqChecks {
+		if strings.HasPrefix(sid, id) {
+			for _, sp := range getSpecs(sid, tier) {
+				if sp.Name == v.Conf {
+					return ReplaySeq(sid, tier, v.Conf, v.History)
+				}
+			}
+		}
+	}
 	if r, ok := Replayers[id]; ok {
 		return r(tier, v)
 	}
-	if _, ok := SeqChecks[id]; ok {
-		return ReplaySeq(id, tier, v.Conf, v.History)
-	}
-	fmt.Fprintln(os.Stderr, "no replayer for", id)
+	fmt.Fprintln(os.Stderr, "no replayer for", id, "configuration", v.Conf)
 	return 2
 }
